@@ -125,11 +125,38 @@ from cat.c13 import _fptr
 HARNESSES += [_fptr('c20_fptr_total', 'C20', 1)]
 
 
+# ---- by-name lookups: histories of calls (the member-pointer trick of c13_lookups.cxx made lookup()/freshen_* affordable) --------------
+from cat.c13 import _MF_TUS, _REALLOC_INT, _ERASE
+_LK_NAMES = ['lookup_type_by_name', 'lookup_type_by_scoped_name', 'lookup_type_by_true_name', 'lookup_manifest_by_name',
+             'lookup_element_by_name', 'lookup_element_by_scoped_name']
+
+
+def _lk(first):
+    b = {'defs': {'FIRST': first}, 'unwind': 10, 'unwindset': {'ll_memmove.0': 40, 'll_memcpy.0': 40, _ERASE: 5}, 'cap': 600}
+    return dict(id='c20_lookups_f%d' % first, property='C20', src='c20_lookups.cxx', entry='harness_c20_lookups',
+                # interrogateDatabase.cxx is compiled as part of the harness unit (see c20_lookups.cxx: pointer to member function)
+                tus=_MF_TUS[1:] + [_DB + 'interrogateManifest.cxx'], hflags=_ASSERTS + ['-DBUILDING_INTERROGATEDB'], tuflags=_ASSERTS,
+                cut=[_LOAD_LATEST, _REALLOC_INT], cbmc_flags=_FAT_NODES,
+                desc='histories of by-name lookups: %s first, then each of the six lookup_*_by_* functions, on a new database with a nested type' % _LK_NAMES[first],
+                domain='CONCRETE histories and names (weak): database = type O, nested type W (plain name "W", scoped name "O::W", true name "tW"), '
+                       'manifest m, member element e (scoped name "O::e"); 6 histories: %s asked 2-4 names (each name the entities bear in '
+                       'that table, a name they bear in another table, an unknown name), then the second function asked its 2-4 names; '
+                       'one catalogue entry per first function, so the six entries cover all 36 ordered pairs' % _LK_NAMES[first],
+                oracle='every answer at both points == index of the entity bearing that name in that table, else 0 (in particular the second '
+                       'function\'s answers do not depend on the first); records unchanged; load_latest not reached; no crash',
+                bounds={'quick': b, 'thorough': b})
+
+
+HARNESSES += [_lk(f) for f in range(6)]
+
+
 PROPERTY_INFO = {'C20': {'level': 'model_checking',
          'explanation': 'bounded symbolic execution (CBMC) of the real query-interface code lowered from /repo',
          'outside': 'databases larger than the bounds; lazily loaded files (load_latest is cut: no file is requested in any harness); the by-name '
-                    'lookups lookup()/freshen_* (std::map<std::string,int> caches rebuilt by clear()+insert: symbolic execution of the recursive '
-                    '_Rb_tree::_M_erase over a string-keyed tree did not finish within 5 min even for two entities); the one-line extern "C" wrappers '
+                    'lookups lookup()/freshen_* are decided on CONCRETE histories only (c20_lookups_f*: every ordered pair of the six lookup '
+                    'functions on one database with a nested type, concrete query names; symbolic query names or a symbolic choice of the table '
+                    'make every cache root symbolic and ran out of memory, see c13_lookups.cxx; histories longer than two functions and lookups '
+                    'interleaved with loads: C13 c13_lookups_k*); the one-line extern "C" wrappers '
                     'of interrogate_interface.cxx themselves (each is get_ptr()->get_K(i).accessor(n), the two layers are decided separately)',
          'assumptions': []}}
 
